@@ -149,3 +149,7 @@ def replay(case):
 def main(ctx, t0):
     acc = core.run_units(units(ctx), run_unit, ctx)
     return core.finish(PID, ctx, LEVEL, acc, RULE, {"exhaustive": True, "configs_small_n": len(configs(ctx)), "configs_n8": len(configs(ctx, True))}, ASSUMPTIONS, t0)
+
+
+def replay_unit(unit, ctx):
+    return run_unit(unit, ctx)
